@@ -44,6 +44,9 @@ def parseOp (lr : LoadRes) : String → Option Op
   | "Pi" => some (.setPsk .real)
   | "Pu" => some (.setPsk .uninit)
   | "Pn" => some (.setPsk .nil)
+  | "Er" => some .edit     -- SetClientRandom
+  | "En" => some .edit     -- SetSNI (same name)
+  | "Ea" => some .edit     -- ALPN edit
   | _ => none
 
 def srcTok : Src → String
@@ -199,9 +202,12 @@ def c20 (c : Case) : Verdict :=
         let (wt, wp) := match sf.raw with
           | some (t, p) => (slotTok t ++ "/1", slotTok p)
           | none => ("nowire", "N")
-        let mHs := if mHsOk then s!"ok/ok/{vers}/{b01 resumed}/{b01 resumed} wt={wt} wp={wp}" else "-"
+        let bv := match sf.raw with
+          | some (_, .tok _) => b01 sf.binderFresh
+          | _ => "-"
+        let mHs := if mHsOk then s!"ok/ok/{vers}/{b01 resumed}/{b01 resumed} wt={wt} wp={wp} bv={bv}" else "-"
         let iHs := match hsI with
-          | some h => if h.startsWith "ok/" then s!"{h} wt={c.output.getD "wt" "?"} wp={c.output.getD "wp" "?"}" else "-"
+          | some h => if h.startsWith "ok/" then s!"{h} wt={c.output.getD "wt" "?"} wp={c.output.getD "wp" "?"} bv={c.output.getD "bv" "?"}" else "-"
           | none => "-"
         -- classification
         let (clause, cls) := monitor cx (Doc.init cx.cfg cx.hasCache) ops ir id
@@ -215,6 +221,9 @@ def c20 (c : Case) : Verdict :=
           else if ir.any (fun r => r.startsWith "err:") then "err"
           else "noH"
         let tag := s!"{kind},{cls},inj={injTag ops},{endTag}"
+        -- a PSK on the wire of a documented order must carry the binder of the bytes sent
+        if legal && ranH && c.output.get "bv" == some "0" then
+          .propFail tag "binder-on-wire-is-not-the-binder-of-the-bytes-sent" else
         match clause with
         | some cl => .propFail tag cl
         | none =>
